@@ -154,6 +154,17 @@ pub fn after_task(r: &mut Runner, _inst: usize) {
     if r.oracles.c14 {
         crate::c14::after_task(r);
     }
+    if r.oracles.c03 {
+        crate::c03::after_task(r);
+    }
+    if r.oracles.c06 {
+        // Right after snapshots were written is when a snapshot that does
+        // not carry the whole state shows.
+        let task = hooks::state().last_task.clone();
+        if task.contains("update_stored_snapshots") {
+            crate::c06::check(r);
+        }
+    }
     if r.oracles.c11 {
         let task = hooks::state().last_task.clone();
         crate::c11::observe(r, &format!("after task {task}"));
@@ -184,6 +195,9 @@ pub fn after_op(r: &mut Runner) {
     }
     if r.oracles.c14 {
         crate::c14::instant(r);
+    }
+    if r.oracles.c03 {
+        crate::c03::instant(r);
     }
     if r.oracles.c11 {
         crate::c11::observe(r, "after the operation");
